@@ -90,6 +90,10 @@ func c12RunOpt(p *Program, fi *FuncInfo, opt *c12Exec, args ...c12Val) (paths []
 		ex.path = &c12Path{}
 		ex.store = map[string]c12Val{}
 		for k, v := range init {
+			if b, isBuilder := v.(c12Builder); isBuilder {
+				// builders are mutable: every path starts from its own copy
+				v = c12Builder{S: &c12Str{Parts: append([]c12Part{}, b.S.Parts...)}}
+			}
 			ex.store[k] = v
 		}
 		ex.depth, ex.steps, ex.nloop = 0, 0, 0
@@ -287,6 +291,9 @@ func (ex *c12Exec) truth(fr *c12Frame, e ast.Expr) bool {
 		if s, ok := fr.info.Selections[sel]; ok {
 			c.Field, _ = s.Obj().(*types.Var)
 		}
+	} else if sv, ok := v.(c12Sym); ok && sv.From != nil && sv.K == 0 {
+		// a local or helper parameter that carries the value of a state field: the test is a test of that field
+		c.Expr, c.Field = sv.Desc, sv.From
 	}
 	ex.path.Conds = append(ex.path.Conds, c)
 	return k == 0
@@ -350,7 +357,8 @@ func (ex *c12Exec) stmt(fr *c12Frame, s ast.Stmt) c12Ctl {
 		}
 		var out []c12Val
 		for _, r := range st.Results {
-			v := ex.rv(ex.expr(fr, r))
+			// a returned pointer into the receiver state stays a reference (func (m *Model) slot() *T { return &m.a })
+			v := ex.argVal(fr, r)
 			if t, ok := v.(c12Tuple); ok && len(st.Results) == 1 {
 				out = append(out, t.Vals...)
 			} else {
@@ -525,6 +533,29 @@ func (ex *c12Exec) rangeStmt(fr *c12Frame, st *ast.RangeStmt) c12Ctl {
 	default:
 		if ref, isRef := ex.expr(fr, st.X).(c12Ref); isRef && ex.generic {
 			return ex.genericRange(fr, st, ref, lbl)
+		}
+		if ex.generic {
+			// an unknown local value (a string parameter, …): one symbolic iteration with unknown key and element
+			ex.nloop++
+			for _, o := range c12AssignedIn(fr.info, st.Body) {
+				if _, local := fr.env[o]; local {
+					fr.env[o] = c12Sym{Hole: -1, Desc: fmt.Sprintf("loop%d:%s", ex.nloop, o.Name())}
+				}
+			}
+			name := fmt.Sprintf("loop%d:range", ex.nloop)
+			if st.Key != nil {
+				ex.bind(fr, st.Key, c12Sym{Hole: -1, Desc: name}, st.Tok == token.DEFINE, st)
+			}
+			if st.Value != nil {
+				ex.bind(fr, st.Value, c12Sym{Hole: -1, Desc: name + ":elem"}, st.Tok == token.DEFINE, st)
+			}
+			ex.path.Loops = append(ex.path.Loops, c12Loop{Sym: name, Kind: "range", Over: c12Show(x)})
+			ctl := ex.block(fr, st.Body.List)
+			_, out := ex.loopCtl(fr, ctl, lbl)
+			if ctl == c12Return || ctl == c12Abort {
+				return ctl
+			}
+			return out
 		}
 		ex.path.Skipped = append(ex.path.Skipped, fmt.Sprintf("range over unknown %s in %s", canonExpr(fr.info, st.X), fr.fn))
 		return c12Next
@@ -738,6 +769,8 @@ func (ex *c12Exec) switchStmt(fr *c12Frame, st *ast.SwitchStmt) c12Ctl {
 				if s, ok := fr.info.Selections[sel]; ok {
 					c.Field, _ = s.Obj().(*types.Var)
 				}
+			} else if sv, ok := tag.(c12Sym); ok && sv.From != nil && sv.K == 0 {
+				c.Expr, c.Field = sv.Desc, sv.From
 			}
 			if k < len(clauses) {
 				chosen, matched = clauses[k], true
@@ -848,7 +881,12 @@ func (ex *c12Exec) assignStmt(fr *c12Frame, st *ast.AssignStmt) {
 	if len(st.Lhs) == len(st.Rhs) {
 		vals := make([]c12Val, len(st.Rhs))
 		for i, r := range st.Rhs {
-			vals[i] = ex.rv(ex.expr(fr, r))
+			if define {
+				// p := &m.a[i] / p := m.slot(): a local pointer into the receiver state is an alias of that state
+				vals[i] = ex.argVal(fr, r)
+			} else {
+				vals[i] = ex.rv(ex.expr(fr, r))
+			}
 		}
 		for i, l := range st.Lhs {
 			if define {
